@@ -285,6 +285,11 @@ def call(tag, r=1, d=1, meth="Echo"):
 
 
 FOREIGN = [0, -1, 99, 1000000, I64MAX, -(1 << 63)]
+
+
+def aliases(i):
+    """ids that coincide with i after a narrowing / sign mistake (16, 31, 32 bits, sign bit): all foreign"""
+    return [i + (1 << 32), i - (1 << 32), i + (1 << 31), i + (1 << 16), i + (1 << 62), -i, i - (1 << 63)]
 CORRUPT = ["X0a0501", "Xff", "X0a"]
 ERRS = ["NO_SERVICE", "NO_METHOD", "INVALID_REQUEST", "WRONG_PROTO", "TIMEOUT", "NO_ERROR"]
 
@@ -317,7 +322,7 @@ def decorate(rng, ids, order):
         if x < 0.30 and done:
             ops.append(resp(rng.choice(done), rng))   # duplicate of a consumed id
         if x > 0.80:
-            ops.append(resp(rng.choice(FOREIGN + [max(ids) + 1, max(ids) + 2]), rng))
+            ops.append(resp(rng.choice(FOREIGN + [max(ids) + 1, max(ids) + 2] + aliases(i)), rng))
         ops.append(resp(i, rng))
         done.append(i)
         if rng.random() < 0.15:
@@ -386,7 +391,7 @@ def with_responses(rng, ops, density):
             fetched[t[1]] = nxt
         out.append(op)
         while rng.random() < density and nxt > 0:
-            out.append(resp(rng.choice(list(range(1, nxt + 1)) + [nxt + 1, 0]), rng))
+            out.append(resp(rng.choice(list(range(1, nxt + 1)) + [nxt + 1, 0] + aliases(rng.randint(1, nxt))[:4]), rng))
     for i in range(1, nxt + 1):
         if rng.random() < 0.8:
             out.append(resp(i, rng))
